@@ -915,7 +915,7 @@ class _Inliner:
       call, mode = st.value, 'expr'
     elif isinstance(st, ast.Assign) and isinstance(st.value, ast.Call) and len(st.targets) == 1:
       call, mode = st.value, 'assign'
-    elif isinstance(st, ast.AnnAssign) and isinstance(st.value, ast.Call) and isinstance(st.target, ast.Name):
+    elif isinstance(st, ast.AnnAssign) and isinstance(st.value, ast.Call) and isinstance(st.target, (ast.Name, ast.Attribute)):
       call, mode = st.value, 'annassign'
     elif isinstance(st, ast.Return) and isinstance(st.value, ast.Call):
       call, mode = st.value, 'return'
@@ -1439,6 +1439,178 @@ def _sroa_function(fn: ast.FunctionDef, records: Dict[str, List[Tuple[str, Optio
   return n
 
 
+def _soa_record_lists(fn: ast.FunctionDef, records: Dict[str, List[Tuple[str, Optional[ast.AST]]]]) -> int:
+  """A local list of records (`L = []` ... `L.append(Rec(a, b))`) that is only tested for emptiness / length, indexed
+  for a field (`L[i].f`) or iterated by comprehensions reading fields of the element (directly or through
+  `itertools.compress(L, S)`) is the family of parallel lists `L__f`: `L__a.append(a); L__b.append(b)`,
+  `[e.f for e in L]` -> `[e__f for e__f in L__f]`."""
+  n = 0
+  parents: Dict[int, ast.AST] = {}
+  for x in ast.walk(fn):
+    for ch in ast.iter_child_nodes(x):
+      parents[id(ch)] = x
+  stores: Dict[str, List[ast.Name]] = {}
+  for x in ast.walk(fn):
+    if isinstance(x, ast.Name) and isinstance(x.ctx, (ast.Store, ast.Del)):
+      stores.setdefault(x.id, []).append(x)
+  nested = [y for y in ast.walk(fn) if y is not fn and isinstance(y, (ast.FunctionDef, ast.Lambda))]
+  nested_names = {z.id for y in nested for z in ast.walk(y) if isinstance(z, ast.Name)}
+  for name, sts in list(stores.items()):
+    if len(sts) != 1 or name in nested_names:
+      continue
+    init = parents.get(id(sts[0]))
+    if not (isinstance(init, (ast.Assign, ast.AnnAssign)) and isinstance(init.value, ast.List) and not init.value.elts
+            and (init.targets == [sts[0]] if isinstance(init, ast.Assign) else init.target is sts[0])):
+      continue
+    loads = [x for x in ast.walk(fn) if isinstance(x, ast.Name) and x.id == name and isinstance(x.ctx, ast.Load)]
+    rec = None
+    plan = []   # (kind, node...)
+    ok = bool(loads)
+    for x in loads:
+      par = parents.get(id(x))
+      gp = parents.get(id(par)) if par is not None else None
+      ggp = parents.get(id(gp)) if gp is not None else None
+      # L.append(Rec(...))
+      if isinstance(par, ast.Attribute) and par.attr == 'append' and isinstance(gp, ast.Call) and gp.func is par \
+          and isinstance(ggp, ast.Expr) and len(gp.args) == 1 and not gp.keywords and isinstance(gp.args[0], ast.Call) \
+          and isinstance(gp.args[0].func, ast.Name) and gp.args[0].func.id in records and (rec in (None, gp.args[0].func.id)):
+        rec = gp.args[0].func.id
+        plan.append(('append', ggp, gp.args[0]))
+      elif isinstance(par, ast.UnaryOp) and isinstance(par.op, ast.Not):
+        plan.append(('truth', x))
+      elif isinstance(par, (ast.If, ast.While, ast.IfExp)) and par.test is x:
+        plan.append(('truth', x))
+      elif isinstance(par, ast.BoolOp):
+        plan.append(('truth', x))
+      elif isinstance(par, ast.Call) and isinstance(par.func, ast.Name) and par.func.id == 'len' and par.args == [x]:
+        plan.append(('truth', x))
+      elif isinstance(par, ast.Subscript) and par.value is x and isinstance(gp, ast.Attribute) and gp.value is par \
+          and isinstance(gp.ctx, ast.Load):
+        plan.append(('index', x, gp))
+      elif isinstance(par, ast.comprehension) and par.iter is x and isinstance(par.target, ast.Name):
+        plan.append(('comp', x, par, gp))
+      elif isinstance(par, ast.Call) and (_chain(par.func) or '').endswith('compress') and len(par.args) == 2 and par.args[0] is x \
+          and isinstance(gp, ast.comprehension) and gp.iter is par and isinstance(gp.target, ast.Name):
+        plan.append(('comp', x, gp, ggp))
+      else:
+        ok = False
+        break
+    if not ok or rec is None:
+      continue
+    fields = [f for f, _ in records[rec]]
+    # appended records: all fields given explicitly
+    app_vals = []
+    for kind, *rest in plan:
+      if kind != 'append':
+        continue
+      call = rest[1]
+      if any(isinstance(a, ast.Starred) for a in call.args) or any(k.arg is None for k in call.keywords) or len(call.args) > len(fields):
+        ok = False
+        break
+      vals = dict(zip(fields, call.args))
+      vals.update({k.arg: k.value for k in call.keywords})
+      for f, d in records[rec]:
+        if f not in vals and d is not None:
+          vals[f] = d
+      if set(vals) != set(fields):
+        ok = False
+        break
+      app_vals.append(vals)
+    if not ok:
+      continue
+    # comprehension elements: every use of the element variable is a load of one field
+    comp_fields: Dict[int, Set[str]] = {}
+    for kind, *rest in plan:
+      if kind == 'comp':
+        comp, owner = rest[1], rest[2]
+        ev = comp.target.id
+        uses = [z for z in ast.walk(owner) if isinstance(z, ast.Name) and z.id == ev and z is not comp.target]
+        fs = set()
+        for z in uses:
+          pz = parents.get(id(z))
+          if isinstance(pz, ast.Attribute) and pz.value is z and isinstance(pz.ctx, ast.Load) and pz.attr in fields:
+            fs.add(pz.attr)
+          else:
+            ok = False
+        if len(fs) != 1:
+          ok = False
+        comp_fields[id(comp)] = fs
+      elif kind == 'index' and rest[1].attr not in fields:
+        ok = False
+    if not ok:
+      continue
+    # ---- rewrite
+    def block_of(st):
+      par = parents.get(id(st))
+      for fld in ('body', 'orelse', 'finalbody'):
+        b = getattr(par, fld, None)
+        if isinstance(b, list) and any(y is st for y in b):
+          return b
+      return None
+    b = block_of(init)
+    if b is None:
+      continue
+    i = next(k for k, y in enumerate(b) if y is init)
+    new_inits = [ast.copy_location(ast.Assign(targets=[ast.Name(id=f'{name}__{f}', ctx=ast.Store())],
+                                              value=ast.List(elts=[], ctx=ast.Load()), lineno=init.lineno), init) for f in fields]
+    for r in new_inits:
+      ast.fix_missing_locations(r)
+    b[i:i + 1] = new_inits
+    ai = 0
+    for kind, *rest in plan:
+      if kind == 'append':
+        st = rest[0]
+        vals = app_vals[ai]
+        ai += 1
+        blk = block_of(st)
+        if blk is None:
+          continue
+        j = next(k for k, y in enumerate(blk) if y is st)
+        # the field values are evaluated in field order, as the constructor call does
+        apps = []
+        for f in fields:
+          call = ast.Call(func=ast.Attribute(value=ast.Name(id=f'{name}__{f}', ctx=ast.Load()), attr='append', ctx=ast.Load()),
+                          args=[vals[f]], keywords=[])
+          e = ast.Expr(value=call)
+          ast.copy_location(e, st)
+          ast.copy_location(call, st)
+          ast.fix_missing_locations(e)
+          apps.append(e)
+        blk[j:j + 1] = apps
+      elif kind == 'truth':
+        rest[0].id = f'{name}__{fields[0]}'
+      elif kind == 'index':
+        x, attr = rest
+        x.id = f'{name}__{attr.attr}'
+        sub = parents[id(x)]
+        # L[i].f  ->  L__f[i]: the Attribute node becomes the subscript
+        gpar = parents.get(id(attr))
+        for fld, val in ast.iter_fields(gpar):
+          if val is attr:
+            setattr(gpar, fld, sub)
+          elif isinstance(val, list):
+            for k, y in enumerate(val):
+              if y is attr:
+                val[k] = sub
+      elif kind == 'comp':
+        x, comp, owner = rest
+        f = next(iter(comp_fields[id(comp)]))
+        x.id = f'{name}__{f}'
+        ev = comp.target.id
+
+        class _R(ast.NodeTransformer):
+          def visit_Attribute(self, a: ast.Attribute):
+            if isinstance(a.value, ast.Name) and a.value.id == ev and a.attr == f:
+              return ast.copy_location(ast.Name(id=f'{ev}__{f}', ctx=ast.Load()), a)
+            return self.generic_visit(a)
+        _R().visit(owner)
+        comp.target.id = f'{ev}__{f}'
+    n += 1
+    # parents are stale now: one list per call
+    return n + _soa_record_lists(fn, records)
+  return n
+
+
 def _propagate_name_aliases(fn: ast.FunctionDef) -> int:
   """`a = b` where both names are bound exactly once in the function (b earlier in the same statement list, or b a
   parameter that is never re-bound): loads of `a` read `b` directly and the copy disappears (what inlining a
@@ -1549,16 +1721,53 @@ def _chain(e: ast.AST) -> Optional[str]:
   return None
 
 
-def _const_test(t: ast.AST) -> Optional[bool]:
+def _never_none(fn: ast.FunctionDef) -> Tuple[Set[str], Set[str]]:
+  """(parameters annotated with a protobuf message type, locals bound exactly once to a freshly constructed protobuf
+  message or to another such local).  A field read off a protobuf message is never None (unset fields read as their
+  default), and neither is a constructed message."""
+  params = set()
+  for a in fn.args.args + fn.args.kwonlyargs:
+    c = _chain(a.annotation) if a.annotation is not None else None
+    if c and '_pb2.' in c:
+      params.add(a.arg)
+  stores: Dict[str, int] = {}
+  for x in ast.walk(fn):
+    if isinstance(x, ast.Name) and isinstance(x.ctx, (ast.Store, ast.Del)):
+      stores[x.id] = stores.get(x.id, 0) + 1
+  for a in fn.args.args + fn.args.kwonlyargs + fn.args.posonlyargs:
+    stores[a.arg] = stores.get(a.arg, 0) + 1
+  locals_: Set[str] = set()
+  changed = True
+  while changed:
+    changed = False
+    for x in ast.walk(fn):
+      if isinstance(x, ast.Assign) and len(x.targets) == 1 and isinstance(x.targets[0], ast.Name):
+        nm = x.targets[0].id
+        if nm in locals_ or stores.get(nm) != 1:
+          continue
+        v = x.value
+        ok = False
+        if isinstance(v, ast.Call) and not isinstance(v.func, ast.Call):
+          c = _chain(v.func)
+          ok = bool(c) and '_pb2.' in c and c.rsplit('.', 1)[1][:1].isupper()
+        elif isinstance(v, ast.Name):
+          ok = v.id in locals_
+        if ok:
+          locals_.add(nm)
+          changed = True
+  return params, locals_
+
+
+def _const_test(t: ast.AST, never_none: Optional[Tuple[Set[str], Set[str]]] = None) -> Optional[bool]:
   """Truth value of a comparison between two enum-member chains (`X.State.ACTIVE == X.State.ACTIVE`) or constants, as
   left behind when a helper is inlined with a literal argument; None when not decidable."""
   if isinstance(t, ast.Constant) and isinstance(t.value, bool):
     return t.value
   if isinstance(t, ast.UnaryOp) and isinstance(t.op, ast.Not):
-    v = _const_test(t.operand)
+    v = _const_test(t.operand, never_none)
     return None if v is None else not v
   if isinstance(t, ast.BoolOp):
-    vs = [_const_test(v) for v in t.values]
+    vs = [_const_test(v, never_none) for v in t.values]
     if isinstance(t.op, ast.And):
       return False if any(v is False for v in vs) else True if all(v is True for v in vs) else None
     return True if any(v is True for v in vs) else False if all(v is False for v in vs) else None
@@ -1580,6 +1789,12 @@ def _const_test(t: ast.AST) -> Optional[bool]:
       if ma.rsplit('.', 1)[0] == mb.rsplit('.', 1)[0]:
         return False
     return None
+  if never_none is not None and isinstance(op, (ast.Is, ast.IsNot)):
+    for a, b in ((l, r), (r, l)):
+      if isinstance(b, ast.Constant) and b.value is None:
+        c = _chain(a)
+        if c and (('.' in c and c.split('.')[0] in never_none[0]) or ('.' not in c and c in never_none[1])):
+          return isinstance(op, ast.IsNot)
   if isinstance(op, (ast.Eq, ast.Is, ast.NotEq, ast.IsNot)):
     v = same(l, r)
     return None if v is None else v if isinstance(op, (ast.Eq, ast.Is)) else not v
@@ -1594,6 +1809,7 @@ def _const_test(t: ast.AST) -> Optional[bool]:
 
 def _fold_constant_tests(fn: ast.FunctionDef) -> int:
   n = 0
+  never_none = _never_none(fn)
 
   def do_block(stmts: List[ast.stmt]) -> List[ast.stmt]:
     nonlocal n
@@ -1607,7 +1823,7 @@ def _fold_constant_tests(fn: ast.FunctionDef) -> int:
         for h in st.handlers:
           h.body = do_block(h.body)
       if isinstance(st, ast.If):
-        v = _const_test(st.test)
+        v = _const_test(st.test, never_none)
         if v is not None:
           n += 1
           out.extend(st.body if v else st.orelse)
@@ -2013,6 +2229,32 @@ def _inline_enum_aliases(tree: ast.Module) -> int:
   for x in ast.walk(tree):
     if isinstance(x, ast.Name) and isinstance(x.ctx, (ast.Store, ast.Del)):
       stores[x.id] = stores.get(x.id, 0) + 1
+  # `_TrialState = study_pb2.Trial.State`: a private module-level name bound once to a dotted chain rooted at an imported
+  # module is the chain itself (substituted first, so that `_TrialState.ACTIVE` is an enum member below)
+  imported: Set[str] = set()
+  for st in tree.body:
+    if isinstance(st, (ast.Import, ast.ImportFrom)):
+      for a in st.names:
+        imported.add((a.asname or a.name).split('.')[0])
+  chain_aliases: Dict[str, ast.AST] = {}
+  for st in tree.body:
+    if isinstance(st, ast.Assign) and len(st.targets) == 1 and isinstance(st.targets[0], ast.Name):
+      tgt, val = st.targets[0].id, st.value
+      c = _chain(val)
+      if tgt.startswith('_') and not tgt.startswith('__') and stores.get(tgt) == 1 and c and c.count('.') >= 1 \
+          and c.split('.')[0] in imported and c.rsplit('.', 1)[1][:1].isupper() and not c.rsplit('.', 1)[1].isupper():
+        chain_aliases[tgt] = val
+  n0 = 0
+  if chain_aliases:
+    class C(ast.NodeTransformer):
+      def visit_Name(self, x: ast.Name):
+        nonlocal n0
+        if isinstance(x.ctx, ast.Load) and x.id in chain_aliases:
+          n0 += 1
+          return ast.copy_location(copy.deepcopy(chain_aliases[x.id]), x)
+        return x
+    C().visit(tree)
+    ast.fix_missing_locations(tree)
   aliases: Dict[str, ast.AST] = {}
   for st in tree.body:
     tgt, val = None, None
@@ -2034,9 +2276,18 @@ def _inline_enum_aliases(tree: ast.Module) -> int:
           tgt, val = st.target.id, st.value
         if tgt and tgt.startswith('_') and not tgt.startswith('__') and enum_value(val):
           cls_aliases[(c.name, tgt)] = val
+  def as_tuple(v: ast.AST) -> ast.AST:
+    # only membership / iteration is ever asked of such a constant: a frozenset / set of members is read as the tuple
+    if isinstance(v, ast.Call):
+      v = v.args[0]
+    if isinstance(v, (ast.Set, ast.List)):
+      return ast.copy_location(ast.Tuple(elts=list(v.elts), ctx=ast.Load()), v)
+    return v
+  aliases = {k: as_tuple(v) for k, v in aliases.items()}
+  cls_aliases = {k: as_tuple(v) for k, v in cls_aliases.items()}
   if not aliases and not cls_aliases:
-    return 0
-  n = 0
+    return n0
+  n = n0
 
   class T(ast.NodeTransformer):
     def __init__(self):
@@ -2165,29 +2416,62 @@ def _filter_loops_to_comprehensions(fn: ast.FunctionDef) -> int:
   def arms_of(body: List[ast.stmt], conds: List[ast.AST]) -> Optional[List[Tuple[List[ast.AST], str, ast.AST]]]:
     """[(path conditions, list name, element)] or None when the body is not a pure append chain."""
     out = []
-    if len(body) == 1 and isinstance(body[0], ast.If):
-      st = body[0]
-      if not _pure_expr(st.test):
-        return None
-      a = arms_of(st.body, conds + [st.test])
-      if a is None:
-        return None
-      out += a
-      if st.orelse:
-        neg = ast.copy_location(ast.UnaryOp(op=ast.Not(), operand=st.test), st.test)
-        b = arms_of(st.orelse, conds + [neg])
-        if b is None:
-          return None
-        out += b
-      return out
     for st in body:
-      if isinstance(st, ast.Expr) and isinstance(st.value, ast.Call) and isinstance(st.value.func, ast.Attribute) \
+      if isinstance(st, ast.If):
+        if not _pure_expr(st.test):
+          return None
+        a = arms_of(st.body, conds + [st.test])
+        if a is None:
+          return None
+        out += a
+        if st.orelse:
+          neg = ast.copy_location(ast.UnaryOp(op=ast.Not(), operand=st.test), st.test)
+          b = arms_of(st.orelse, conds + [neg])
+          if b is None:
+            return None
+          out += b
+      elif isinstance(st, ast.Expr) and isinstance(st.value, ast.Call) and isinstance(st.value.func, ast.Attribute) \
           and st.value.func.attr == 'append' and isinstance(st.value.func.value, ast.Name) and len(st.value.args) == 1 \
           and not st.value.keywords and _pure_expr(st.value.args[0]):
         out.append((list(conds), st.value.func.value.id, st.value.args[0]))
       else:
         return None
     return out
+
+  _NEG = {ast.Eq: ast.NotEq, ast.NotEq: ast.Eq, ast.In: ast.NotIn, ast.NotIn: ast.In, ast.Is: ast.IsNot, ast.IsNot: ast.Is}
+
+  def push_not(c: ast.AST) -> ast.AST:
+    """`not a != b` is `a == b` (single comparison of the (in)equality / membership / identity kind); `not not x` in a
+    filter position is `x`."""
+    if isinstance(c, ast.UnaryOp) and isinstance(c.op, ast.Not):
+      o = c.operand
+      if isinstance(o, ast.Compare) and len(o.ops) == 1 and type(o.ops[0]) in _NEG:
+        return ast.copy_location(ast.Compare(left=o.left, ops=[_NEG[type(o.ops[0])]()], comparators=list(o.comparators)), o)
+      if isinstance(o, ast.UnaryOp) and isinstance(o.op, ast.Not):
+        return push_not(o.operand)
+    return c
+
+  def sink_continues(body: List[ast.stmt]) -> Optional[List[ast.stmt]]:
+    """`if c: X; continue` + REST is `if c: X else: REST`; `if c: continue` + REST is `if not c: REST` (copies)."""
+    for idx, s_ in enumerate(body):
+      if isinstance(s_, ast.If) and s_.body and isinstance(s_.body[-1], ast.Continue) and not s_.orelse:
+        rest = sink_continues(body[idx + 1:])
+        if rest is None:
+          return None
+        head = s_.body[:-1]
+        if any(isinstance(x, ast.Continue) for h in head for x in ast.walk(h)):
+          return None
+        if head:
+          new_if = ast.If(test=s_.test, body=head, orelse=rest)
+        elif rest:
+          new_if = ast.If(test=ast.copy_location(ast.UnaryOp(op=ast.Not(), operand=s_.test), s_.test), body=rest, orelse=[])
+        else:
+          return list(body[:idx])
+        ast.copy_location(new_if, s_)
+        return list(body[:idx]) + [new_if]
+      if any(isinstance(x, (ast.Continue, ast.Break)) for x in ast.walk(s_)):
+        return None
+    return list(body)
 
   def do_block(stmts: List[ast.stmt]) -> None:
     nonlocal n
@@ -2212,7 +2496,8 @@ def _filter_loops_to_comprehensions(fn: ast.FunctionDef) -> int:
           i += 1
           continue
         hoisted_iter = st.iter
-      arms = arms_of(st.body, [])
+      sunk = sink_continues(st.body)
+      arms = arms_of(sunk, []) if sunk is not None else None
       if not arms:
         i += 1
         continue
@@ -2264,6 +2549,7 @@ def _filter_loops_to_comprehensions(fn: ast.FunctionDef) -> int:
         if conds:
           flat: List[ast.AST] = []
           for c in conds:
+            c = push_not(c)
             flat += list(c.values) if isinstance(c, ast.BoolOp) and isinstance(c.op, ast.And) else [c]
           test = flat[0] if len(flat) == 1 else ast.BoolOp(op=ast.And(), values=[copy.deepcopy(c) for c in flat])
           ifs = [copy.deepcopy(test)]
@@ -2354,6 +2640,7 @@ def normalise(tree: ast.Module, exclude: Optional[Set[str]] = None) -> int:
         n += _propagate_name_aliases(x)
         if _sroa_function(x, records):
           n += 1 + _propagate_name_aliases(x)
+        n += _soa_record_lists(x, records)
       n += _filter_loops_to_comprehensions(x)
   for x in ast.walk(tree):
     if isinstance(x, ast.FunctionDef):
